@@ -65,6 +65,9 @@ def run(ctx):
             for a in t['args']:
                 if a.get('k') == 'const' and a.get('fn_id') in F.fns:
                     refs[a['fn_id']] = F.fns[a['fn_id']]
+        for c in F.with_descendants(hook):     # or in a closure of the hook: `u32::deserialize(d).map(|wire| match wire { .. })`
+            if c.id != hook.id:
+                refs[c.id] = c
         cands = [c for c in refs.values() if tab.find_switches(c)]
         return cands[0] if len(cands) == 1 else hook
     w_hook, r_hook = w, r
